@@ -1,7 +1,9 @@
 //! Scheduler for spawning tasks on the worker pool.
 
 use std::sync::Arc;
+use std::sync::atomic::{self, Ordering};
 
+use many_cpus::ProcessorId;
 use tracing::trace;
 
 use crate::metrics::CLOCK;
@@ -170,50 +172,11 @@ impl Scheduler {
 
         let dyn_task = allocate_task(state, wrapped);
 
-        #[cfg(folo_verif)]
-        crate::verif::point("sp.push", u64::from(processor_id));
-        #[cfg(folo_verif)]
-        let verif_task = crate::verif::task_address(&dyn_task);
-
         // Push to the appropriate queue.
-        if urgent {
-            #[cfg(not(folo_verif))]
-            state
-                .urgent_queue
-                .lock()
-                .expect(NEVER_POISONED)
-                .push_back(dyn_task);
-            #[cfg(folo_verif)]
-            {
-                let mut queue = state.urgent_queue.lock().expect(NEVER_POISONED);
-                queue.push_back(dyn_task);
-                crate::verif::event("enqueue_urgent", u64::from(processor_id), verif_task);
-            }
-            trace!(
-                pool_name = self.inner.pool_name.as_str(),
-                pool_id = self.inner.pool_id,
-                processor_id,
-                "spawned urgent task"
-            );
-        } else {
-            #[cfg(not(folo_verif))]
-            state
-                .regular_queue
-                .lock()
-                .expect(NEVER_POISONED)
-                .push_back(dyn_task);
-            #[cfg(folo_verif)]
-            {
-                let mut queue = state.regular_queue.lock().expect(NEVER_POISONED);
-                queue.push_back(dyn_task);
-                crate::verif::event("enqueue_regular", u64::from(processor_id), verif_task);
-            }
-            trace!(
-                pool_name = self.inner.pool_name.as_str(),
-                pool_id = self.inner.pool_id,
-                processor_id,
-                "spawned regular task"
-            );
+        if !self.enqueue(state, dyn_task, urgent, processor_id) {
+            // The pool has been shut down: the task was dropped instead of queued, so
+            // awaiting the join handle reports that the task was abandoned.
+            return JoinHandle::new(receiver);
         }
 
         // Record the spawn for metrics.
@@ -251,30 +214,9 @@ impl Scheduler {
         let dyn_task = allocate_task(state, wrapped);
 
         // Push to the appropriate queue.
-        if urgent {
-            state
-                .urgent_queue
-                .lock()
-                .expect(NEVER_POISONED)
-                .push_back(dyn_task);
-            trace!(
-                pool_name = self.inner.pool_name.as_str(),
-                pool_id = self.inner.pool_id,
-                processor_id,
-                "spawned urgent fire-and-forget task"
-            );
-        } else {
-            state
-                .regular_queue
-                .lock()
-                .expect(NEVER_POISONED)
-                .push_back(dyn_task);
-            trace!(
-                pool_name = self.inner.pool_name.as_str(),
-                pool_id = self.inner.pool_id,
-                processor_id,
-                "spawned fire-and-forget task"
-            );
+        if !self.enqueue(state, dyn_task, urgent, processor_id) {
+            // The pool has been shut down: the task was dropped instead of queued.
+            return;
         }
 
         // Record the spawn for metrics.
@@ -282,6 +224,90 @@ impl Scheduler {
 
         // Notify one worker that work is available.
         state.wake_event.notify(1);
+    }
+
+    /// Queues a task for the workers of a processor, unless the pool has been shut down.
+    ///
+    /// After shutdown there are no workers left that could execute the task and nothing that
+    /// would ever drop it, so a join handle for it could never complete. Such a task is
+    /// dropped right here instead, which completes its join handle with the "abandoned"
+    /// outcome, exactly as for a task that was still queued when the pool shut down.
+    ///
+    /// Returns whether the task was queued.
+    fn enqueue(
+        &self,
+        state: &ProcessorState,
+        task: ErasedTaskHandle,
+        urgent: bool,
+        processor_id: ProcessorId,
+    ) -> bool {
+        #[cfg(folo_verif)]
+        crate::verif::point("sp.push", u64::from(processor_id));
+        #[cfg(folo_verif)]
+        let verif_task = crate::verif::task_address(&task);
+
+        let queue = if urgent {
+            &state.urgent_queue
+        } else {
+            &state.regular_queue
+        };
+
+        // Pairs with the fence in `join_all_workers()`: either the shutdown sequence sees the
+        // state we obtained above (and takes care of whatever we queue on it), or we see the
+        // shutdown flag below.
+        atomic::fence(Ordering::SeqCst);
+
+        let rejected = {
+            let mut queue = queue.lock().expect(NEVER_POISONED);
+
+            // The flag is checked under the queue lock: the shutdown sequence sets the flag
+            // before it empties the queues under the same lock, so a task is either seen and
+            // dropped by the shutdown sequence or rejected here.
+            if self.inner.shutdown.load(Ordering::Acquire) {
+                #[cfg(folo_verif)]
+                crate::verif::event("enqueue_rejected", u64::from(processor_id), verif_task);
+
+                Some(task)
+            } else {
+                queue.push_back(task);
+
+                #[cfg(folo_verif)]
+                crate::verif::event(
+                    if urgent {
+                        "enqueue_urgent"
+                    } else {
+                        "enqueue_regular"
+                    },
+                    u64::from(processor_id),
+                    verif_task,
+                );
+
+                None
+            }
+        };
+
+        // A rejected task is dropped only after the queue lock has been released because
+        // dropping it executes the destructor of the caller's closure.
+        if rejected.is_some() {
+            trace!(
+                pool_name = self.inner.pool_name.as_str(),
+                pool_id = self.inner.pool_id,
+                processor_id,
+                urgent,
+                "pool is shut down, abandoning spawned task"
+            );
+            return false;
+        }
+
+        trace!(
+            pool_name = self.inner.pool_name.as_str(),
+            pool_id = self.inner.pool_id,
+            processor_id,
+            urgent,
+            "spawned task"
+        );
+
+        true
     }
 }
 
